@@ -66,6 +66,9 @@ func (pm *ProfileMergeV2) Merge(p *prof.Profile) error {
 		s.Unit = strIdx[s.Unit]
 		s.Type = strIdx[s.Type]
 	}
+	p.DropFrames = strIdx[p.DropFrames]
+	p.KeepFrames = strIdx[p.KeepFrames]
+	p.DefaultSampleType = strIdx[p.DefaultSampleType]
 
 	if pm.prof == nil {
 		pm.init(p)
